@@ -28,11 +28,16 @@ KINDS = ["EMG", "FPCal", "FPData", "Data3D", "Force", "Events", "Optical"]
 KINDS_OF = {"C02": ["EMG", "FPData", "Data3D", "Events"], "C15": ["EMG", "EMG@c", "FPCal", "FPData"],
             # "X@e": the small models in which the content of items is edited in place
             "C20x": ["EMG@e", "Data3D@e", "Force@e", "FPData@e", "Events@e"], "C16": ["Data3D", "Force", "EMG"], "C18": ["Data3D", "Force", "EMG", "Events"],
-            "C20": KINDS + ["EMG@e", "Data3D@e", "Force@e", "FPData@e", "Events@e"]}
+            "C20": KINDS + ["EMG@e", "Data3D@e", "Force@e", "FPData@e", "Events@e", "Optical@e", "FPCal@e"]}
 CHAN_KINDS = {"EMG", "FPCal", "FPData"}
 NI = 2          # instances the model drives
 SLOTS = 3       # slot 3: the "twin" of a decode (the same bytes decoded a second time)
 GEOM = (np.ones(3, "<f4"), np.eye(3, dtype="<f4"), np.zeros(3, "<f4"))
+
+
+def fresh_str(text):
+    """an equal string that is a different object (keys are compared by value, not identity)"""
+    return text.encode("utf-8").decode("utf-8") if len(text) > 1 else text
 
 
 class Harness:
@@ -131,6 +136,10 @@ class Harness:
         base = np.arange(n * 9, dtype="<f4").reshape(n, 9) + 100 * t
         if good and t % 4 == 0 and self.kind in ("EMG", "Data3D", "Force"):
             base[:] = np.nan    # a track that was never seen: every frame missing
+        elif good and t % 4 == 3 and n >= 2 and self.kind in ("EMG", "Data3D", "Force", "FPData"):
+            base[n - 1] = np.nan   # lost before the end: one run from frame 0, trailing frames missing
+        elif good and t % 4 == 2 and n >= 3 and self.kind in ("EMG", "Data3D", "Force"):
+            base[1] = np.nan       # a gap in the middle: two runs
         k = self.kind
         if k == "EMG":
             return EMGTrack(text, base[:, 0].copy())
@@ -388,13 +397,20 @@ class Harness:
                 if what == "len":
                     val.append(len(b))
                 elif what == "iter":
-                    val.extend(self.ident(x) for x in b)
+                    ids = [self.ident(x) for x in b]
+                    # iterations that overlap in time are independent of each other
+                    nested = [(self.ident(x), self.ident(y)) for x in b for y in b]
+                    zipped = [(self.ident(x), self.ident(y)) for x, y in zip(b, b)]
+                    again = [self.ident(x) for x in b]
+                    if (nested != [(p, q) for p in ids for q in ids] or zipped != [(p, p) for p in ids] or again != ids):
+                        ids = ids + [-7]
+                    val.extend(ids)
                 elif what == "index":
                     val.append(self.ident(b[key]))
                 elif what == "label":
-                    val.append(self.ident(b[self.labels[key]]))
+                    val.append(self.ident(b[fresh_str(self.labels[key])]))
                 elif what == "contains":
-                    val.append(1 if self.labels[key] in b else 0)
+                    val.append(1 if fresh_str(self.labels[key]) in b else 0)
                 elif what == "badkey":
                     self.tagc += 1
                     keys = [1.5, None, (0,), b"", slice(0, 2)]
@@ -427,6 +443,17 @@ class Harness:
                     it.torque[0] = newv
                 elif k == "Events":
                     it.values[0] = newv
+                elif k == "FPCal":
+                    if self.tagc % 2 and it.position.flags.writeable:
+                        it.position[0, 0] = newv
+                    else:
+                        it.size = np.array([newv, 1.0], dtype="<f4")
+                elif k == "Optical":
+                    vp_ = it.camera_viewport
+                    if self.tagc % 2 and getattr(vp_.origin, "flags", None) is not None and vp_.origin.flags.writeable:
+                        vp_.origin[0] = int(newv)
+                    else:
+                        vp_.origin = np.array([int(newv), 1], dtype="<i4")
             if self.nf == 0 and k in ("EMG", "Data3D", "Force", "FPData"):
                 return None
             if k == "Events" and len(it.values) == 0:
@@ -599,6 +626,74 @@ def directed(init, adj, rng, n=6):
     return out
 
 
+def solo_replays(kind, calls, seed, h):
+    """for every block that was built by a constructor and since then only changed by calls on
+    itself: the same calls again on a fresh harness with nothing else going on.  -> trace events"""
+    out = []
+    for i in range(1, NI + 1):
+        own, pure = None, False
+        for c in calls:
+            if c["op"] == "construct" and c["i"] == i:
+                own, pure = [c], True
+            elif c["op"] == "decode" and c.get("j") == i:
+                pure = False
+            elif c["i"] == i and own is not None:
+                if c["op"] in ("assign_from", "poke"):
+                    pure = False
+                elif c["op"] not in ("lookup", "encode", "decode"):
+                    own.append(c)
+        if not pure or h.inst[i] is None or h.share_ok:
+            continue
+        solo = Harness(kind, seed)
+        solo.work = h.work
+        try:
+            for c in own:
+                if c["op"] != "construct" and solo.inst[i] is None:
+                    break
+                if solo.nf == 0 and c["op"] == "aux" and kind in ("EMG", "Data3D", "Force", "FPData"):
+                    continue    # (skipped in the main run as well)
+                solo.run(c)
+            a = h.world()[i - 1]
+            b = solo.world()[i - 1]
+            same = (a["ex"] == b["ex"] and [x["label"] for x in a["items"]] == [x["label"] for x in b["items"]]
+                    and a["chans"] == b["chans"] and a["aux"] == b["aux"])
+        except Exception:  # noqa: BLE001
+            continue
+        w = h.world()
+        out.append(dict(o=dict(op="solo", i=i, same=bool(same), share_ok=True), r=dict(ok=True, exc=[], val=[]), w=w))
+    return out
+
+
+def directed_assign_from(init, adj, rng, n=6):
+    """model paths: two blocks, the (still empty) track list of one assigned to the other, then
+    tracks added to either - a list that two blocks share lets a track of the wrong length in"""
+    out = []
+    for _ in range(n * 6):
+        if len(out) >= n:
+            break
+        cur, labs, stage = init, [], 0
+        for _step in range(12):
+            outs = adj.get(cur, [])
+            want = {0: ("Begin", "Construct(1,<<>>)"), 1: ("Construct(2,<<>>)",), 2: ("AssignFrom(2,1)", "AssignFrom(1,2)")}.get(stage)
+            if want:
+                cand = [(d, l) for d, l in outs if l in want]
+            else:
+                cand = [(d, l) for d, l in outs if l.startswith("Add(") and ",TRUE," in l] or \
+                       [(d, l) for d, l in outs if l.startswith(("Add(", "Assign("))]
+            if not cand:
+                break
+            d, l = rng.choice(cand)
+            labs.append(l)
+            cur = d
+            if stage == 0 and l.startswith("Construct(1"):
+                stage = 1
+            elif stage in (1, 2) and l != "Begin":
+                stage += 1
+        if stage >= 3 and len(labs) >= 6:
+            out.append(labs)
+    return out
+
+
 def run_tour(kind, labs, seed, share_ctor=False):
     model = kind
     kind = kind.split("@")[0]
@@ -607,6 +702,7 @@ def run_tour(kind, labs, seed, share_ctor=False):
     h.work = common.scratch()
     init = h.world()
     steps = []
+    done = []      # the calls that were really made
     for lab in labs:
         c = parse_label(lab)
         if c is None:
@@ -618,6 +714,8 @@ def run_tour(kind, labs, seed, share_ctor=False):
         ev = h.run(c)
         if ev is not None:          # (a call that makes no sense on this concrete block is skipped)
             steps.append(ev)
+            done.append(c)
+    steps += solo_replays(kind, done, seed, h)
     return dict(kind="EMG0" if (kind == "EMG" and h.nf == 0) else kind, init=init, steps=steps,
                 meta=dict(labels=labs, seed=seed, kind=model, share_ctor=share_ctor))
 
@@ -706,11 +804,20 @@ def check(prop, tier, seed, replay=None):
                 gens.append(tours.tours(init, adj, rng, max_len=50, max_edges=budget,
                                         select=lambda s, d, lab: (lab.startswith("Add(") and lab.endswith(",-1)"))
                                         or (lab.startswith("BulkAdd(") and lab.endswith("<<>>)"))))
+            if prop == "C15" and budget:
+                # bulk operations with explicit channels (duplicates inside one batch, taken channels)
+                gens.append(tours.tours(init, adj, rng, max_len=50, max_edges=budget // 3,
+                                        select=lambda s, d, lab: lab.startswith(("BulkAdd(", "Assign(", "BulkRemove("))
+                                        and not lab.endswith("<<>>)")))
             k = 0
             for g in gens:
                 for labs in g:
                     k += 1
                     trs.append(run_tour(kind, labs, seed * 7 + k))
+            if prop in ("C20", "C16") and kind in ("Data3D", "Force"):
+                for labs in directed_assign_from(init, adj, rng):
+                    k += 1
+                    trs.append(run_tour(kind, labs, 4 + 8 * k + seed % 4))     # seeds with different frame counts per block
             if prop in ("C20", "C15") and kind_of(kind) in ("FPCal", "Optical"):
                 for labs in directed(init, adj, rng):
                     k += 1
